@@ -38,12 +38,17 @@ class World:
         db.bind('sqlite', path, create_db=True)
         db.generate_mapping(create_tables=True)
 
-    def reset(self):
+    def reset(self, state=None):
         self.db.disconnect()
         con = sqlite3.connect(self.path, isolation_level=None)
         con.execute('PRAGMA foreign_keys=OFF')
         con.execute('DELETE FROM tx')
         con.execute('DELETE FROM ty')
+        if state:
+            for k, r in state['X'].items():
+                con.execute('INSERT INTO tx (id, y_id) VALUES (?, ?)', (k, r or None))
+            for k, r in state['Y'].items():
+                con.execute('INSERT INTO ty (id, x_id) VALUES (?, ?)', (k, r or None))
         con.close()
 
     def dump(self):
@@ -131,10 +136,10 @@ def run(ctx, nbeh, level, ids, seed):
     found = []
     stats = {'behaviours': 0, 'cyclic_flushes': 0, 'ordered_flushes_with_new_objects': 0}
     for i in range(nbeh):
-        w.reset()
+        u = rng.choice(inits)
+        w.reset(norm(nodes[u]['db']))
         st = {'objs': {}}
-        u = inits[0]
-        trace = []
+        trace = [norm(nodes[u]['db'])]
         stats['behaviours'] += 1
         try:
             for _ in range(level + 1):
